@@ -182,7 +182,7 @@ theorem parse_xing (s : XingStream) (ok : s.OK) : parse s.build = .ok s.expected
     have htf := takeFrames_first s.build o _ _ hm hsk
     have hsl := syncLoop_first s.build o rest _ htf hsk
     have hq : (optVal s.tag.quality ≠ -1) ↔ s.tag.quality.isSome = true := optVal_ne _
-    unfold parse
+    unfold parse parseFrom
     simp only [hscan, hsl, hvb, hfs]
     have hneg : ¬ ((s.hdr.samples : Int) * fv < 0) ∨ fv = -1 := by
       rcases hnn with h | h
